@@ -118,8 +118,23 @@ func c14SyncThenAck(c *Ctx) {
 		}
 		na++
 		has := false
-		for _, s := range findSites(f, "abortUncommitted") {
-			if dominatesInstr(s.Instr, ret.Ret) {
+		// directly, or inside a same-package helper (on each of its paths) whose call dominates the return
+		for _, ds := range p.deepSites(f, nameMatcher("abortUncommitted"), 2) {
+			if !dominatesInstr(ds.outer(), ret.Ret) {
+				continue
+			}
+			always := true
+			if len(ds.Chain) > 0 {
+				inner := append(append([]Site{}, ds.Chain[1:]...), ds.Site)
+				for _, is := range inner {
+					for _, r := range returnsOf(is.Instr.Parent()) {
+						if !dominatesInstr(is.Instr, r.Ret) {
+							always = false
+						}
+					}
+				}
+			}
+			if always {
 				has = true
 			}
 		}
@@ -229,28 +244,64 @@ func c14Watermark(c *Ctx) {
 		c.und("watermark-order", "writePruneWatermark", "", "anchor not found")
 		return
 	}
-	get := func(name string) *Site { return findSite(f, name) }
-	wr, sy, cl, rn, sd := get("Write"), get("Sync"), get("Close"), get("Rename"), get("syncDir")
-	if wr == nil || sy == nil || cl == nil || rn == nil || sd == nil {
+	// the five steps are looked for in writePruneWatermark and its same-package helpers; steps that live in the same
+	// function are ordered by dominance and branch facts, a step in a helper precedes a step in its caller when the
+	// helper call dominates it and the caller proceeds only on the helper's success (nil error), in which case the
+	// helper's success condition is conjoined
+	get := func(name string) *deepSite {
+		ds := p.deepSites(f, nameMatcher(name), 2)
+		if len(ds) == 0 {
+			return nil
+		}
+		return &ds[0]
+	}
+	dwr, dsy, dcl, drn, dsd := get("Write"), get("Sync"), get("Close"), get("Rename"), get("syncDir")
+	if dwr == nil || dsy == nil || dcl == nil || drn == nil || dsd == nil {
 		c.viol("watermark-order", "writePruneWatermark", p.Pos(fnPos(f)), "one of Write/Sync/Close/Rename/syncDir is missing")
+		return
+	}
+	wr, sy, cl, rn, sd := &dwr.Site, &dsy.Site, &dcl.Site, &drn.Site, &dsd.Site
+	sameFn := func(a, b *Site) bool { return a.Instr.Parent() == b.Instr.Parent() }
+	if !sameFn(wr, sy) || !sameFn(wr, cl) || !sameFn(rn, sd) {
+		c.und("watermark-order", "writePruneWatermark", p.Pos(fnPos(f)), "write/sync/close or rename/syncDir are spread over several functions in a way this rule does not follow")
 		return
 	}
 	c.check(dominatesInstr(wr.Instr, sy.Instr) && hasFact(factStrings(factsAt(sy.Instr)), "Write(", "== nil"), "watermark-order", "Write → Sync", p.Pos(sy.Pos()), "file synced after a successful write", "the temp watermark is not synced after (and only after) a successful write")
 	c.check(dominatesInstr(sy.Instr, cl.Instr) || dominatesInstr(wr.Instr, cl.Instr), "watermark-order", "Sync → Close", p.Pos(cl.Pos()), "closed after sync", "temp watermark closed before it was written")
 	d := p.mustHoldAt(rn.Instr)
-	ok1, m1 := everyDisjunctHas(d, []string{"^!", "!= nil"})
-	_ = ok1
+	okR := false
+	if sameFn(cl, rn) {
+		okR = dominatesInstr(cl.Instr, rn.Instr)
+	} else if len(dcl.Chain) == len(drn.Chain)+1 && dcl.Chain[len(dcl.Chain)-1].Instr.Parent() == rn.Instr.Parent() {
+		hc := dcl.Chain[len(dcl.Chain)-1]
+		okH, _ := everyDisjunctHas(d, []string{"^!", hc.Callee.Name() + "(", "!= nil"})
+		okR = dominatesInstr(hc.Instr, rn.Instr) && okH
+		// success condition of the helper: the conditions of its nil-error returns
+		var succ dnf
+		for _, r := range returnsOf(cl.Instr.Parent()) {
+			if len(r.Results) > 0 && isNilConst(r.Results[len(r.Results)-1]) {
+				succ = dnfOr(succ, p.mustHoldAt(r.Ret))
+			}
+		}
+		d = dnfAnd(d, succ)
+		okR = okR && len(succ) > 0
+	}
 	// rename only when neither the write/sync error nor the close error is set
-	okR := dominatesInstr(cl.Instr, rn.Instr)
 	noWriteErr, mw := everyDisjunctHas(d, []string{"^!", "φ(", "!= nil"}, []string{"^!", "Write(", "!= nil"}, []string{"^!", "Sync()", "!= nil"})
 	noCloseErr, mc := everyDisjunctHas(d, []string{"^!", "Close()", "!= nil"})
 	c.check(okR && noWriteErr && noCloseErr, "watermark-order", "Close → Rename", p.Pos(rn.Pos()), "renamed into place only after write, sync and close all succeeded",
-		"the temp watermark can replace the real one although write/sync/close failed: "+mw+" "+mc+" "+m1)
+		"the temp watermark can replace the real one although write/sync/close failed: "+mw+" "+mc)
 	c.check(dominatesInstr(rn.Instr, sd.Instr) && hasFact(factStrings(factsAt(sd.Instr)), "!(", "Rename(", "!= nil"), "watermark-order", "Rename → syncDir", p.Pos(sd.Pos()), "directory synced after a successful rename", "the directory is not synced after the rename")
 	// removeObsoleteWALFiles: watermark durable before files are removed
 	if ro := wsFunc(p, "tendermintWALStore", "removeObsoleteWALFiles"); ro != nil {
-		wm, cu := findSite(ro, "writePruneWatermark"), findSite(ro, "cleanupObsoleteWALs")
-		ok := wm != nil && cu != nil && dominatesInstr(wm.Instr, cu.Instr) && hasFact(factStrings(factsAt(cu.Instr)), "!(", "writePruneWatermark(", "!= nil")
+		var wm, cu *Site
+		if ds := p.deepSites(ro, nameMatcher("writePruneWatermark"), 2); len(ds) > 0 {
+			wm = &ds[0].Site
+		}
+		if ds := p.deepSites(ro, nameMatcher("cleanupObsoleteWALs"), 2); len(ds) > 0 {
+			cu = &ds[0].Site
+		}
+		ok := wm != nil && cu != nil && wm.Instr.Parent() == cu.Instr.Parent() && dominatesInstr(wm.Instr, cu.Instr) && hasFact(factStrings(factsAt(cu.Instr)), "!(", "writePruneWatermark(", "!= nil")
 		pos := p.Pos(fnPos(ro))
 		if cu != nil {
 			pos = p.Pos(cu.Pos())
